@@ -367,11 +367,17 @@ func (c10) Exec(c *core.Case) (out *core.Outcome) {
 			why   string
 			mode  string
 			until time.Time
+			// retWhy: what protects the version's RETENTION against this caller ("" = the caller may
+			// change it): a legal hold protects the data, it does not freeze the retention settings
+			retWhy string
 		}
 		pres := make([]pre, len(vers))
 		for j, tv := range vers {
 			pr, why := tv.protectedFor(now(), effectiveBypass)
-			pres[j] = pre{pr, why, tv.Mode, tv.Until}
+			nh := *tv
+			nh.Hold = false
+			_, rw := nh.protectedFor(now(), effectiveBypass)
+			pres[j] = pre{pr, why, tv.Mode, tv.Until, rw}
 		}
 		unjudgedGov := (op.Actor == "root" || op.Actor == "admin") && op.Bypass // statement silent on implicit bypass for root/admin
 		var res *env.Result
@@ -549,13 +555,21 @@ func (c10) Exec(c *core.Case) (out *core.Outcome) {
 					continue
 				}
 			}
+			if pr.why == "legal-hold" && pr.retWhy == "" {
+				// under a hold, a retention this caller may change may have been changed: follow the store
+				if mode, until, ok := c10GetRetention(e, bkt, tv, p.Versioned); ok {
+					tv.Mode, tv.Until, tv.Default = mode, until, false
+				} else if !tv.Default {
+					tv.Mode = ""
+				}
+			}
 			// retention must not have been weakened
-			if pr.why == "compliance" || pr.why == "governance" {
+			if pr.retWhy == "compliance" || pr.retWhy == "governance" {
 				mode, until, ok := c10GetRetention(e, bkt, tv, p.Versioned)
 				switch {
 				case !ok:
 					o.Violate("lock-circumvented", sigFor("retention-removed"), "%s: the %s retention of %q (until %s) is gone", desc, pr.why, tv.Key, pr.until.Format(time.RFC3339))
-				case pr.why == "compliance" && mode != "COMPLIANCE":
+				case pr.retWhy == "compliance" && mode != "COMPLIANCE":
 					o.Violate("lock-circumvented", sigFor("compliance-downgraded"), "%s: COMPLIANCE retention of %q became %s", desc, tv.Key, mode)
 				case until.Before(pr.until.Add(-time.Second)):
 					o.Violate("lock-circumvented", sigFor("retention-shortened"), "%s: %s retention of %q shortened from %s to %s", desc, pr.why, tv.Key, pr.until.Format(time.RFC3339), until.Format(time.RFC3339))
